@@ -555,6 +555,11 @@ class FPOps(RealOps):
             return bool(np.isfinite(x))
         return z3.And(z3.Not(z3.fpIsNaN(x)), z3.Not(z3.fpIsInf(x)))
 
+    def isnan(self, x):
+        if isconc(x):
+            return bool(x != x)
+        return z3.fpIsNaN(x) if z3.is_fp(x) else False
+
     def unary(self, name, x):
         if name == "sqrt":
             if isconc(x):
